@@ -33,6 +33,22 @@ func init() {
 		sf("Lists", reflect.SliceOf(reflect.SliceOf(num))), sf("Strs", reflect.SliceOf(str)), sf("Inner", tMid),
 		sf("Éclairs", num), sf("PLeafs", reflect.SliceOf(reflect.PtrTo(tLeaf))), sf("Empty", reflect.SliceOf(tMid)),
 	})
+	// typedmodel: the Lean typed model (Jmes/Typed.lean: evalT, view) against the
+	// implementation on the same typed document and expression.
+	streamTable["typedmodel"] = func(seed uint64, idx int) caseT {
+		_, doc, _, exprs := typedCase(seed, idx)
+		tc := typedCanon(reflect.ValueOf(doc))
+		var lines []string
+		for k, e := range exprs {
+			if e.nav {
+				lines = append(lines, "ST "+strconv.FormatUint(seed, 10)+" "+strconv.Itoa(idx)+" "+strconv.Itoa(k)+" "+hexField(e.typed)+" "+tc)
+			}
+		}
+		if len(lines) == 0 {
+			lines = []string{"C " + hexField("@")}
+		}
+		return caseT{lines: lines}
+	}
 	streamTable["typed"] = func(seed uint64, idx int) caseT {
 		_, _, gdoc, exprs := typedCase(seed, idx)
 		lines := []string{"TY " + strconv.FormatUint(seed, 10) + " " + strconv.Itoa(idx)}
@@ -409,5 +425,95 @@ func doTyped(seedS, idxS string) outcome {
 		}
 	}
 	o.base = strings.Join(parts, ";")
+	return o
+}
+
+// typedCanon: the canonical text of a typed document for the Lean typed model:
+// S{name:v,...} struct (exported fields in declaration order), P0 / P<v>
+// pointer, L[...] typed slice, generic values as in VerifCanon.
+func typedCanon(v reflect.Value) string {
+	if !v.IsValid() {
+		return "null"
+	}
+	switch v.Kind() {
+	case reflect.Interface:
+		if v.IsNil() {
+			return "null"
+		}
+		return typedCanon(v.Elem())
+	case reflect.Ptr:
+		if v.IsNil() {
+			return "P0"
+		}
+		return "P" + typedCanon(v.Elem())
+	case reflect.Struct:
+		var parts []string
+		for i := 0; i < v.NumField(); i++ {
+			f := v.Type().Field(i)
+			if f.PkgPath != "" {
+				continue
+			}
+			parts = append(parts, "s"+hexOfString(f.Name)+":"+typedCanon(v.Field(i)))
+		}
+		return "S{" + strings.Join(parts, ",") + "}"
+	case reflect.Slice:
+		if v.Type() == reflect.TypeOf([]interface{}{}) {
+			return jmespath.VerifCanon(v.Interface())
+		}
+		parts := make([]string, v.Len())
+		for i := range parts {
+			parts[i] = typedCanon(v.Index(i))
+		}
+		return "L[" + strings.Join(parts, ",") + "]"
+	case reflect.Map:
+		return jmespath.VerifCanon(v.Interface())
+	}
+	return jmespath.VerifCanon(v.Interface())
+}
+
+func hexOfString(s string) string {
+	const hexd = "0123456789abcdef"
+	b := make([]byte, 0, 2*len(s))
+	for i := 0; i < len(s); i++ {
+		b = append(b, hexd[s[i]>>4], hexd[s[i]&15])
+	}
+	return string(b)
+}
+
+// doTypedModel: answer for "ST <seed> <idx> <k> <hexexpr> <typedcanon>": the
+// implementation on the regenerated typed document, result shown through its JSON form.
+func doTypedModel(seedS, idxS, kS, hexExpr, canon string) outcome {
+	seed, _ := strconv.ParseUint(seedS, 10, 64)
+	idx, _ := strconv.Atoi(idxS)
+	k, _ := strconv.Atoi(kS)
+	_, doc, _, exprs := typedCase(seed, idx)
+	var o outcome
+	if k < 0 || k >= len(exprs) {
+		o.base = "bad-request"
+		return o
+	}
+	e := exprs[k]
+	if hexField(e.typed) != hexExpr || typedCanon(reflect.ValueOf(doc)) != canon {
+		o.base = "bad-request"
+		return o
+	}
+	var r interface{}
+	var err error
+	p, _ := safely(func() { r, err = jmespath.Search(e.typed, doc) })
+	if p {
+		o.base = "panic"
+		return o
+	}
+	if err != nil {
+		o.base = errBase(err)
+		return o
+	}
+	js, merr := json.Marshal(r)
+	var back interface{}
+	if merr != nil || json.Unmarshal(js, &back) != nil {
+		o.base = "unmarshalable"
+		return o
+	}
+	o.base = "ok " + jmespath.VerifCanon(back)
 	return o
 }
